@@ -64,6 +64,13 @@ def check_call(fx, rep):
                 cn = c.get('cond_node') or {}
                 if cn.get('k') == 'field' and (cn.get('base') or {}).get('text') == 'self' and n in list(A.nodes(c.get('then'))):
                     guard = cn.get('member')
+            # exactly its own field: an enclosing condition of another kind (the `else` of another flag's test, a match arm, a loop) makes the
+            # entry depend on something else than the flag it encodes
+            others = [c for c in path if c.get('k') in ('if', 'match', 'while', 'for', 'loop', 'iflet')
+                      and not (c.get('k') == 'if' and (c.get('cond_node') or {}).get('k') == 'field' and ((c.get('cond_node') or {}).get('base') or {}).get('text') == 'self'
+                               and (c.get('cond_node') or {}).get('member') == guard and n in list(A.nodes(c.get('then'))))]
+            if others and guard is not None:
+                guard = '%s (and %d other enclosing condition%s, e.g. at line %s)' % (guard, len(others), 's' if len(others) > 1 else '', others[0].get('line'))
             written[key] = {'guard': guard, 'true': is_true, 'line': n.get('line')}
             if guard is None:
                 uncond.append(key)
@@ -350,10 +357,10 @@ def check_proxy_extract(fx, rep):
     shared = None
     for f, fnn, impl in fns:
         for x in A.nodes(fnn['body']):
-            if x.get('k') == 'let' and isinstance(x.get('init'), dict) and x['init'].get('k') == 'match':
-                arms = x['init'].get('arms') or []
-                toks = [' '.join(m.get('tokens') or '' for m in A.macros(a.get('body'))) for a in arms]
-                if any('Ok (Ok (()))' in tk for tk in toks) and any('into_parameters' in tk for tk in toks):
+            if x.get('k') == 'let' and isinstance(x.get('init'), dict) and x['init'].get('k') in ('match', 'if'):
+                # two alternatives (match arms or if / else), one template per alternative
+                toks = [m.get('tokens') or '' for m in A.macros(x['init'])]
+                if len(toks) >= 2 and any('Ok (Ok (()))' in tk and 'into_parameters' not in tk for tk in toks) and any('into_parameters' in tk for tk in toks):
                     shared = x.get('pat')
     if shared is None:
         rep.bad('R05.7', 'proxy|anchor-shared-extraction', Fp, 'the shared unit-aware extraction of reply parameters was not found')
